@@ -21,6 +21,16 @@ var keepsafe_keep_duration = time.Duration(10 * time.Second)
 
 var newLine = []byte{'\n'}
 
+// keepDuration returns how long a conn keeps in-flight data safe for replay:
+// keepsafe_keep_duration, but never less than two flush intervals. a line can sit
+// in the write buffer for a whole flush interval before it is even sent.
+func keepDuration(periodFlush time.Duration) time.Duration {
+	if 2*periodFlush > keepsafe_keep_duration {
+		return 2 * periodFlush
+	}
+	return keepsafe_keep_duration
+}
+
 // Conn represents a connection to a tcp endpoint.
 // As long as conn.isAlive(), caller may write data to conn.In
 // when no longer alive, caller must call either getRedo or clearRedo:
@@ -87,7 +97,7 @@ func NewConn(key, addr string, periodFlush time.Duration, pickle bool, connBufSi
 		flush:             make(chan bool),
 		flushErr:          make(chan error),
 		periodFlush:       periodFlush,
-		keepSafe:          NewKeepSafe(keepsafe_initial_cap, keepsafe_keep_duration),
+		keepSafe:          NewKeepSafe(keepsafe_initial_cap, keepDuration(periodFlush)),
 		numErrTruncated:   stats.Counter("dest=" + key + ".unit=Err.type=truncated"),
 		numErrWrite:       stats.Counter("dest=" + key + ".unit=Err.type=write"),
 		numErrFlush:       stats.Counter("dest=" + key + ".unit=Err.type=flush"),
